@@ -20,7 +20,10 @@ def install(ip, rec):
 
     ip.models["jax.flatten_util.ravel_pytree"] = unravel_model
     for nm in ("solve", "mvn_log_prob"):
-        ip.summaries[f"liesel/goose/iwls_utils.py::{nm}"] = (lambda n: lambda ip_, args, kwargs: ip_.uf(n, *[ip_.to_U(a) for a in args]))(nm)
+        # the contract covers the documented positional signature only: any keyword / extra argument selects ANOTHER function of the arguments
+        ip.summaries[f"liesel/goose/iwls_utils.py::{nm}"] = (lambda n: lambda ip_, args, kwargs: ip_.uf(
+            n + "".join(f"|{k}={kwargs[k]!r}" for k in sorted(kwargs)) + (f"|{len(args)}args" if len(args) != {"solve": 2, "mvn_log_prob": 3}[n] else ""),
+            *[ip_.to_U(a) for a in args]))(nm)
 
     def mvn_sample(ip_, args, kwargs):
         rec["sample_args"] = list(args)
@@ -151,3 +154,10 @@ def u_mh(ip):
         c.oblige("user_correction_forwarded", ma[4] == ip.uf("user_corr", k0, ms, ks.f["step_size"], sort=Real))
         c.oblige("accept_step_uses_other_child", ip.to_U(ma[0]).eq(ip.uf("split", key, z3.IntVal(1))))
         c.oblige("mh_step_gets_current_state", ip.to_U(ma[3]).eq(ms))
+
+
+# the user-declared log-correction reaches mh_step bit for bit (binary32 incl. -inf = "the move cannot be reversed" and NaN): same harness as
+# C05.kernel_passthrough.MH, decided here because the statement of C06 names the user-declared log-correction as the MH kernel's q-ratio
+from contracts.c05 import passthrough_unit  # noqa: E402
+
+passthrough_unit("MH", uid="C06.mh.correction_bit_for_bit", prop="C06")
